@@ -915,8 +915,8 @@ def meta_check(d, o, meta):
         try:
             sid = l[1]
             m = meta.get(sid)
-            if m is None:
-                continue
+            if m is None or m.get("fuzzy"):
+                continue              # registered by a request whose outcome the responses do not spell out
             if l[0] == 201 or l[0] == 202:
                 tbl, et = (KUKSA_DT, KUKSA_ET) if l[0] == 201 else (SDV_DT, SDV_ET)
                 if l[2] != tbl[m["dtype"]]:
@@ -1415,8 +1415,10 @@ def monitor(lines, out, props):
                       next_id = i + 1
                       paths[i] = d["path"]
                       byname[d["path"]] = i
-                      meta[i] = d
-                      ack[i] = ((0, None), k)
+                      meta[i] = dict(d, fuzzy=True) if resynced else d
+                      # after a registration request whose outcome the responses do not spell out, a path that
+                      # looks new may have been registered by that earlier request: its timestamp is unknown
+                      ack[i] = ((0, None), k) if not resynced else None
                       ack_t[i] = None
                       c = P.can(d["p"], "create", d["path"], ticked)
                       if c is False:
@@ -1484,6 +1486,14 @@ def monitor(lines, out, props):
                       if P.can(d["p"], "actuate", paths[i], ticked) is False:
                           fails.append("C04-actuate: p%d cleared the target of %s without actuate permission" % (d["p"], paths[i]))
               _c07_expect(subs, chg, unc_ids, k, paths, P, ticked, ack, ack_t)
+              # a notification that fails (reader gone, token expired) makes update_entries run the
+              # housekeeping at once: providers that are down or expired may have lost their claims
+              gone_reader = any((s_.get("dropped") or (ticked and 0 <= s_["p"] < len(P.scopes) and P.scopes[s_["p"]][1]))
+                                and any(m_ & s_["entries"].get(i_, 0) & 3 for i_, m_ in chg.items())
+                                for s_ in subs.values())
+              if gone_reader:
+                  owners = [(h, ids, p, (None if alive and (h in _down or (0 <= p < len(P.scopes) and P.scopes[p][1] and ticked))
+                                         else alive)) for (h, ids, p, alive) in owners]
           elif name == "GET":
               r = o[0]
               if r[0] == 0 and d["id"] in paths:
@@ -1539,6 +1549,11 @@ def monitor(lines, out, props):
                   if not first and not msg:
                       fails.append("C07-empty: sub%d got an empty change message" % d["h"])
           elif name == "PROVIDE":
+              if o[0] == [1, 8]:
+                  holders = [x for x in owners if set(x[1]) & set(d["ids"])]
+                  if holders and all(x[3] is False for x in holders):
+                      fails.append("C10-release: claim of %s refused as already existing although every earlier owner "
+                                   "was released by housekeeping" % d["ids"])
               if o[0][0] == 0:
                   live = [x for x in owners if x[3]]
                   for (h, ids, p, _) in live:
@@ -1564,6 +1579,9 @@ def monitor(lines, out, props):
                       (0 <= p < len(P.scopes) and P.scopes[p][1] and ticked)
                   new.append((h, ids, p, alive and not gone))
               owners = new
+          elif name == "DROP":
+              if d["h"] in subs:
+                  subs[d["h"]]["dropped"] = True
           elif name == "PROVDOWN":
               if any(x[0] == d["h"] for x in owners):
                   _down.add(d["h"])
@@ -1587,7 +1605,7 @@ def monitor(lines, out, props):
                       fails.append("C01-target: %s target is %s, last acknowledged is %s" % (paths.get(i), got, et))
               # C09: judge the last actuation against the inbox growth
               if pend:
-                  fails += _judge_actuation(pend, last[1], provs, owners, paths, meta, P, ticked)
+                  fails += _judge_actuation(pend, last[1], provs, owners, paths, meta, P, ticked, _down)
                   pend = None
               last = (ents, provs)
     return [f for f in fails if not props or f.split("-")[0] in props or f.split(":")[0] in ("panic", "timing", "malformed-output")]
@@ -1600,7 +1618,7 @@ def _tick_index(al):
     return 10**9
 
 
-def _judge_actuation(pend, before, after, owners, paths, meta, P, ticked):
+def _judge_actuation(pend, before, after, owners, paths, meta, P, ticked, down=()):
     k, d, res = pend
     fails = []
     changes = [(d["id"], d["value"])] if d["name"] == "ACTUATE" else d["changes"]
@@ -1624,6 +1642,9 @@ def _judge_actuation(pend, before, after, owners, paths, meta, P, ticked):
         own = [x for x in owners if x[0] == h]
         if not own or i not in own[0][1]:
             fails.append("C09-owner: request for id %d reached provider %d which did not claim it" % (i, h))
+        elif h in down or (0 <= own[0][2] < len(P.scopes) and P.scopes[own[0][2]][1] and ticked):
+            fails.append("C10-lost: %s of id %d succeeded and was forwarded to provider %d, which is %s" % (
+                d["name"], i, h, "disconnected" if h in down else "past its token's expiry"))
         if i in paths:
             if P.can(d["p"], "actuate", paths[i], ticked) is False:
                 fails.append("C04-actuate: p%d actuated %s without actuate permission" % (d["p"], paths[i]))
